@@ -69,6 +69,26 @@ func (s *SelectPlan) ExecuteIn(reqCtx *util.RequestContext, sess Executor) (*mys
 		r := newEmptyResultset(s, s.GetStmt())
 		ret := mysql.ResultPool.Get()
 		ret.Resultset = r
+		if len(s.aggregateFuncs) > 0 && s.stmt.GroupBy == nil {
+			// an aggregate query without GROUP BY answers with exactly one row even
+			// when no table can hold a matching row: COUNT is 0, the others NULL
+			row := make([]interface{}, len(r.Fields))
+			for i := range row {
+				if _, isCount := s.aggregateFuncs[i].(*AggregateFuncCountMerger); isCount {
+					row[i] = int64(0)
+					r.Fields[i].Type = mysql.TypeLonglong
+					r.Fields[i].Charset = 63
+					r.Fields[i].Flag = uint16(mysql.BinaryFlag | mysql.NotNullFlag)
+				}
+			}
+			r.Values = append(r.Values, row)
+			if err := limitSelectResult(s, ret); err != nil {
+				return nil, err
+			}
+			if err := GenerateSelectResultRowData(ret); err != nil {
+				return nil, fmt.Errorf("generate RowData error: %v", err)
+			}
+		}
 		return ret, nil
 	}
 
